@@ -55,11 +55,14 @@ class C08(Driver):
         w_lock = r.choice([0, 0, 0.15])
         balanced = r.random() < 0.5
         w_lend = r.choice([0, 0, 0.15])
+        main_only_abandons = r.random() < 0.35
         for t in range(nth + 1):          # thread 0 = the main thread
             bias = r.random()
             ops = []
             for k in range(r.randint(1, 8)):
                 u = r.random()
+                if main_only_abandons and t > 0 and 0.1 + w_close <= u < 0.1 + w_close + w_sel + w_dl:
+                    u = 0.99     # (a plain give / take instead of an operation that can be abandoned)
                 c = r.randrange(nch)
                 mid = t * 1000 + k
                 if u < 0.1:
@@ -126,6 +129,10 @@ class C08(Driver):
                 if r.random() < 0.4:
                     knobs["p"][k] = r.choice([0.05, 0.2])
         plan = {"property": "C08", "knobs": knobs, "caps": caps, "threads": threads, "flavour": flavour}
+        if main_only_abandons:
+            # every stale entry then belongs to the main thread, whose VM outlives the run: nothing dangles, and the
+            # re-dispatch of messages that reach a stale entry has to conserve them
+            plan["strict"] = 1
         if burst:
             plan["burst"] = burst
         return plan
@@ -293,7 +300,12 @@ class C08(Driver):
                         for c in op["chs"]:
                             if c != int(toks[5]):
                                 stale.setdefault(c, e.seq)
+        if plan.get("strict"):
+            stale_for_crash = {}
+        else:
+            stale_for_crash = stale
         if oc == "sanitizer" or oc.startswith("crash") or (oc.startswith("exit") and "internal error" in log):
+            stale, stale_all = stale_for_crash, stale
             if "failed to write event to self-pipe" in log:
                 cls = "C08/stale-thread-chan-entry/post-to-exited-thread" if stale else "C08/crash/failed-to-write-event-to-self-pipe"
                 return [Violation(cls, log[-600:])]
@@ -378,7 +390,11 @@ class C08(Driver):
             if toks[0] == ":select" and toks[1] == "true" and toks[2] not in (":take", ":close", ":give"):
                 V("C08/select/result-is-not-a-clause-tuple", " ".join(toks))
 
-        def tainted(c, seq=None):
+        strict = bool(plan.get("strict"))
+
+        def tainted(c, seq=None, order=False):
+            if strict and not order:
+                return False
             return c in stale and (seq is None or stale[c] < seq)
         # ---- every received message was sent, on that channel, with the same structure ----
         for mid, (t, c, shape, seq) in got.items():
@@ -403,7 +419,7 @@ class C08(Driver):
                 # while earlier hand-offs are still waiting in the main thread's event queue)
                 continue
             if mids != sorted(mids):
-                if tainted(key[1]):
+                if tainted(key[1], order=True):
                     V("C08/stale-thread-chan-entry/message-forwarded-late-out-of-order", "sender %d channel %d receiver %d: %r" % (key[0], key[1], key[2], mids))
                 else:
                     V("C08/order/per-sender-order-violated", "sender %d channel %d receiver %d: %r" % (key[0], key[1], key[2], mids))
@@ -502,7 +518,7 @@ class C08(Driver):
         if fin and oc == "ok" and all(th["id"] in tend for th in plan["threads"]):
             if int(fin.get("vms", 0)) != 0:
                 V("C08/teardown/vm-not-torn-down", str(fin))
-        if stale:
+        if stale and not strict:
             # once a stale pending entry exists, a message can be written through the dangling VM pointer into
             # another thread's self-pipe (descriptor and thread-local storage get reused): its loop then sees a
             # foreign event. Verdicts about delivery and thread life-cycle in such a run are consequences.
